@@ -1,0 +1,76 @@
+//go:build verif
+
+package keystore
+
+// Passphrase-gate contracts for govc (see /verif/DESIGN.md, C03). Comment-only; build tag verif.
+//
+// pwChecked[a]: during the current operation the private passphrase has been verified for address manager a
+// (set by checkPassword, the only place that verifies it). Operations that use or destroy private material
+// require it; public entry points start with nothing checked.
+
+//@ ghost pwChecked map[int]bool
+//@ spec func nothingChecked() bool = forall x int :: !pwChecked[x]
+
+//@ func (*AddrManager).checkPassword
+//@   requires a.masterKeyPriv != nil && a.masterKeyPriv.Key != nil
+//@   assert-at return nil-only-if-verified: result == nil ==> (old(a.unlocked) && lastEq && lastEqB == bytesval(a.hashedPrivPassphrase)) || (!old(a.unlocked) && deriveOK && deriveKeyOf == a.masterKeyPriv)
+//@   sets pwChecked[a] = err == nil
+
+//@ func (*AddrManager).safelyCheckPassword
+//@   requires a.masterKeyPriv != nil && a.masterKeyPriv.Key != nil
+//@   modifies pwChecked[a], elems(byte), lastEq, lastEqA, lastEqB, lastCT, lastCTA, lastCTB, deriveOK, deriveKeyOf
+//@   ensures gate: pwChecked[a] == (err == nil)
+//@   ensures master-key-wiped: err == nil ==> keyZeroed(a.masterKeyPriv)
+//@ spec func keyZeroed(sk *snacl.SecretKey) bool = sk != nil && sk.Key != nil && (forall j int :: 0 <= j && j < 32 ==> sk.Key[j] == 0)
+
+// gates: private material is decrypted, exported, destroyed or re-encrypted only after the check succeeded
+//@ func (*AddrManager).updatePrivKeys
+//@   requires gate-pass-checked: pwChecked[a]
+//@ func (*AddrManager).destroy
+//@   requires gate-pass-checked: pwChecked[a]
+//@ func (*AddrManager).exportKeystore
+//@   assert-at call export gate-pass-checked: pwChecked[a]
+//@ func (*AddrManager).changePrivPassphrase
+//@   assert-at call putMasterKeyParams gate-pass-checked: pwChecked[a]
+//@   assert-at call putCryptoKeys gate-pass-checked: pwChecked[a]
+//@ func (*AddrManager).signPocec
+//@   assert-at call Sign gate-unlocked: a.unlocked
+
+// public entry points start with nothing verified
+//@ func (*KeystoreManagerForPoC).NewKeystore
+//@   requires pass-entry: nothingChecked()
+//@ func (*KeystoreManagerForPoC).ImportKeystore
+//@   requires pass-entry: nothingChecked()
+//@ func (*KeystoreManagerForPoC).ExportKeystore
+//@   requires pass-entry: nothingChecked()
+//@ func (*KeystoreManagerForPoC).DeleteKeystore
+//@   requires pass-entry: nothingChecked()
+//@ func (*KeystoreManagerForPoC).Unlock
+//@   requires pass-entry: nothingChecked()
+//@ func (*KeystoreManagerForPoC).ChangePrivPassphrase
+//@   requires pass-entry: nothingChecked()
+//@ func (*KeystoreManagerForPoC).SignHash
+//@   requires pass-entry: nothingChecked()
+//@ func (*KeystoreManagerForPoC).SignMessage
+//@   requires pass-entry: nothingChecked()
+
+// Lock-side zeroisation of one address manager
+//@ func (*AddrManager).clearPrivKeys
+//@   requires wf: a.acctInfo != nil && a.branchInfo != nil && (a.masterKeyPriv != nil ==> a.masterKeyPriv.Key != nil) && (forall k string :: has(a.addrs, k) ==> a.addrs[k] != nil)
+//@   loop mAddr invariant wiped-so-far: forall k string :: visited(k) && has(a.addrs, k) ==> a.addrs[k] != nil ==> a.addrs[k].privKey == nil
+//@   ensures locked: !a.unlocked
+//@   ensures account-key-dropped: a.acctInfo.acctKeyPriv == nil && a.branchInfo.externalBranchPriv == nil && a.branchInfo.internalBranchPriv == nil
+//@   ensures master-key-wiped: a.masterKeyPriv != nil && a.masterKeyPriv.Key != nil ==> keyZeroed(a.masterKeyPriv)
+//@   ensures hash-wiped: forall j int :: 0 <= j && j < 64 ==> a.hashedPrivPassphrase[j] == 0
+
+// Changing the passphrase of a locked wallet must not leave the freshly derived key-encryption key in memory.
+//@ func (*KeystoreManagerForPoC).ChangePrivPassphrase
+//@   requires wf: forall k string :: has(kmc.managedKeystores, k) ==> kmc.managedKeystores[k] != nil && kmc.managedKeystores[k].masterKeyPriv != nil && kmc.managedKeystores[k].masterKeyPriv.Key != nil
+//@   loop addrManager invariant new-key: newMasterPrivKey != nil && newMasterPrivKey.Key != nil
+//@   loop addrManager invariant managers-wf: forall k string :: has(kmc.managedKeystores, k) ==> kmc.managedKeystores[k] != nil && kmc.managedKeystores[k].masterKeyPriv != nil && kmc.managedKeystores[k].masterKeyPriv.Key != nil
+//@   loop addrManager invariant rekeyed-so-far: forall k string :: visited(k) && has(kmc.managedKeystores, k) ==> kmc.managedKeystores[k].masterKeyPriv == newMasterPrivKey
+//@   ensures locked-wallet-holds-no-master-key: err == nil && !kmc.unlocked ==> (forall k string :: has(kmc.managedKeystores, k) ==> keyZeroed(kmc.managedKeystores[k].masterKeyPriv))
+
+//@ func unmarshalMasterPrivKey
+//@   requires masterPrivKey != nil
+//@   modifies deep(masterPrivKey), elems(byte), lastCT, lastCTA, lastCTB, deriveOK, deriveKeyOf
